@@ -16,11 +16,16 @@
 (* collide).  A datagram sent to an earlier socket is lost (the socket is    *)
 (* closed), so the network can only deliver to the current socket, but it   *)
 (* may deliver anything there, including answers carrying an earlier ID.    *)
-(* Time in ticks; read_timeout = RD ticks, the deadline passes at e >= RD.   *)
-EXTENDS ClientMsg, TLC
+(* Time in ticks; read_timeout = rd ticks, the deadline passes at e >= rd.   *)
+(*                                                                          *)
+(* The budget is the configured one: a run starts from a configuration      *)
+(* script (ClientConfig: the dgram::Config calls the caller made and the    *)
+(* route by which the object was made); read_timeout, max_retries and the   *)
+(* EDNS payload size put on the wire are what that script leaves in force.  *)
+EXTENDS ClientMsg, ClientConfig, TLC
 
-CONSTANTS RD,          \* read timeout in ticks (>= 1)
-          MaxRetries,  \* max_retries
+CONSTANTS Confs,       \* the configuration scripts (DgScript) a run may start from
+          TickMs,      \* milliseconds per tick
           Faults,      \* the local fault injected: [kind, at]; kind "none",
                        \* "connect", "send", "short" at attempt `at`
           MaxDgrams,   \* bound on the datagrams the network delivers
@@ -33,32 +38,43 @@ VARIABLES ndg,     \* datagrams delivered so far (bound for the model)
           inq,     \* datagrams queued at the current socket
           q,       \* the question asked (0 = nothing submitted)
           fault,   \* the fault of this run
+          conf,    \* the configuration of this run: [sc (script), eff (what is in
+                   \* force), rd (read timeout in ticks), mr (max_retries)]
           sent,    \* <<question of the datagram sent in attempt k>>
           done,    \* outcomes handed to the caller; n = attempt at delivery
           waited   \* ghost: ticks spent waiting in receive loops
-dvars == <<ph, att, e, inq, q, fault, sent, done, waited>>
+dvars == <<ph, att, e, inq, q, fault, conf, sent, done, waited>>
 
 DCur == [ph |-> ph, att |-> att, e |-> e, inq |-> inq, q |-> q, fault |-> fault,
-         sent |-> sent, done |-> done, waited |-> waited]
+         conf |-> conf, sent |-> sent, done |-> done, waited |-> waited]
 DSet(s) == /\ ph' = s.ph /\ att' = s.att /\ e' = s.e /\ inq' = s.inq /\ q' = s.q
-           /\ fault' = s.fault /\ sent' = s.sent /\ done' = s.done
+           /\ fault' = s.fault /\ conf' = s.conf /\ sent' = s.sent /\ done' = s.done
            /\ waited' = s.waited
 
-DInitState(f) == [ph |-> "idle", att |-> 0, e |-> 0, inq |-> <<>>, q |-> 0,
-                  fault |-> f, sent |-> <<>>, done |-> <<>>, waited |-> 0]
+\* the configuration in force after script sc
+DConfOf(sc) == LET eff == DgRun(sc)
+               IN [sc |-> sc, eff |-> eff, rd |-> TicksUp(eff.rto, TickMs), mr |-> eff.mr]
+RDof(s) == s.conf.rd
+MRof(s) == s.conf.mr
+
+DInitState(f, sc) == [ph |-> "idle", att |-> 0, e |-> 0, inq |-> <<>>, q |-> 0,
+                      fault |-> f, conf |-> DConfOf(sc), sent |-> <<>>, done |-> <<>>,
+                      waited |-> 0]
+\* what goes on the wire: the question and the EDNS payload size (-1: no OPT)
+OnWire(s) == [q |-> s.q, ups |-> s.conf.eff.ups]
 
 Fail(s, why) == [s EXCEPT !.ph = "done", !.inq = <<>>, !.done = Append(@, ErrOut(why))]
 FaultAt(s, kind) == s.fault.kind = kind /\ s.fault.at = s.att + 1
 
 \* top of the transmit loop
 StartArm(s) ==
-  IF s.att = 1 + MaxRetries THEN Fail(s, "timeout")
+  IF s.att = 1 + MRof(s) THEN Fail(s, "timeout")
   ELSE IF FaultAt(s, "connect") THEN Fail([s EXCEPT !.att = @ + 1], "connect")
-  ELSE LET s1 == [s EXCEPT !.att = @ + 1, !.sent = Append(@, s.q), !.inq = <<>>]
+  ELSE LET s1 == [s EXCEPT !.att = @ + 1, !.sent = Append(@, OnWire(s)), !.inq = <<>>]
        IN IF FaultAt(s, "send") \/ FaultAt(s, "short") THEN Fail(s1, "send")
           ELSE [s1 EXCEPT !.ph = "recv", !.e = 0]
 
-DeadlinePassed(s) == s.ph = "recv" /\ s.e >= RD
+DeadlinePassed(s) == s.ph = "recv" /\ s.e >= RDof(s)
 
 \* one datagram from the socket
 RecvArm(s) ==
@@ -76,7 +92,7 @@ TimeoutArm(s) == [s EXCEPT !.ph = "start", !.inq = <<>>]
 \* environment
 DSubmitOp(s, qq)  == [s EXCEPT !.q = qq, !.ph = "start"]
 DDeliverOp(s, d)  == IF s.ph = "recv" THEN [s EXCEPT !.inq = Append(@, d)] ELSE s
-DTickOp(s)        == IF s.ph = "recv" /\ s.e < RD
+DTickOp(s)        == IF s.ph = "recv" /\ s.e < RDof(s)
                      THEN [s EXCEPT !.e = @ + 1, !.waited = @ + 1] ELSE s
 
 \* the request task runs until it has to wait.  The loop condition
@@ -118,14 +134,15 @@ DgramAlphabet(s) ==
 --------------------------------------------------------------------------
 (* fine-grained actions *)
 DInitPred == /\ fault \in Faults
+             /\ conf \in {DConfOf(sc) : sc \in Confs}
              /\ ph = "idle" /\ att = 0 /\ e = 0 /\ inq = <<>> /\ q = 0
              /\ sent = <<>> /\ done = <<>> /\ waited = 0
 
 Submit        == ph = "idle" /\ DSet(DSubmitOp(DCur, 1)) /\ UNCHANGED ndg
 Deliver       == /\ ph = "recv" /\ ndg < MaxDgrams /\ ndg' = ndg + 1
                  /\ \E d \in DgramAlphabet(DCur) : DSet(DDeliverOp(DCur, d))
-StartAttempt  == ph = "start" /\ att < 1 + MaxRetries /\ DSet(StartArm(DCur)) /\ UNCHANGED ndg
-GiveUp        == ph = "start" /\ att = 1 + MaxRetries /\ DSet(StartArm(DCur)) /\ UNCHANGED ndg
+StartAttempt  == ph = "start" /\ att < 1 + conf.mr /\ DSet(StartArm(DCur)) /\ UNCHANGED ndg
+GiveUp        == ph = "start" /\ att = 1 + conf.mr /\ DSet(StartArm(DCur)) /\ UNCHANGED ndg
 Retry         == DeadlinePassed(DCur) /\ DSet(TimeoutArm(DCur)) /\ UNCHANGED ndg
 HeadKind      == IF Head(inq).kind # "msg" THEN Head(inq).kind
                  ELSE IF IsAnswer(Head(inq).f, att, q) THEN "answer" ELSE "other"
@@ -136,7 +153,7 @@ RecvDiscardShort    == CanRecv /\ HeadKind = "short" /\ DSet(RecvArm(DCur)) /\ U
 RecvError           == CanRecv /\ HeadKind = "ioerr" /\ DSet(RecvArm(DCur)) /\ UNCHANGED ndg
 \* a datagram may also be taken from the socket although the deadline has
 \* just passed: timeout_at polls the receive first
-RecvLate      == /\ ph = "recv" /\ inq # <<>> /\ DeadlinePassed(DCur) /\ e = RD
+RecvLate      == /\ ph = "recv" /\ inq # <<>> /\ DeadlinePassed(DCur) /\ e = conf.rd
                  /\ DSet(RecvArm(DCur)) /\ UNCHANGED ndg
 DTick         == ~DeadlinePassed(DCur) /\ DSet(DTickOp(DCur)) /\ UNCHANGED ndg
 
@@ -153,12 +170,21 @@ DOwnAnswerOf(s) == \A k \in 1..Len(s.done) :
 DAtMostOnceOf(s) == Len(s.done) <= 1 /\ (s.ph = "done" <=> Len(s.done) = 1)
 \* the retry and time budget: at most 1 + max_retries datagrams are sent,
 \* at most that many read timeouts are spent waiting
-DBudgetOf(s) == /\ s.att <= 1 + MaxRetries /\ Len(s.sent) <= s.att
-                /\ s.e <= RD
-                /\ s.waited <= (1 + MaxRetries) * RD
+\* - the budget being the configured one (asked for, capped to the range)
+DBudgetOf(s) == /\ s.att <= 1 + MRof(s) /\ Len(s.sent) <= s.att
+                /\ s.e <= RDof(s)
+                /\ s.waited <= (1 + MRof(s)) * RDof(s)
+                /\ \A k \in 1..Len(s.sent) : s.sent[k] = OnWire(s)
 \* a datagram is only ever accepted for the attempt that is current
 DCurrentAttemptOf(s) == \A k \in 1..Len(s.done) : s.done[k].ok => s.done[k].n = s.att
 
+\* the budget in force is the one the caller configured
+DConfiguredOf(s) == /\ DgHonoured(s.conf.sc.calls, s.conf.eff)
+                    /\ s.conf.mr = s.conf.eff.mr
+                    /\ (s.conf.rd - 1) * TickMs < s.conf.eff.rto
+                    /\ (s.conf.rd * TickMs >= s.conf.eff.rto \/ s.conf.rd = 1)
+
+DConfigured     == DConfiguredOf(DCur)
 DOwnAnswer      == DOwnAnswerOf(DCur)
 DAtMostOnce     == DAtMostOnceOf(DCur)
 DBudget         == DBudgetOf(DCur)
